@@ -14,10 +14,20 @@ nothing; `rename` over an existing target replaces it; `fopen "ab+"` creates).
 -/
 namespace MgModel.C17
 
+/-- the backups `path.<i>`: a finite table; a missing entry is a missing file.
+Only `bget`/`bset` are used on it, characterised by `bget (bset b i v) j =
+if j = i then v else bget b j` (MgProof.C17.LemmasSize). -/
+abbrev Bak (α : Type) := List (Option (List α))
+
+def bget {α : Type} (b : Bak α) (i : Nat) : Option (List α) := b.getD i none
+
+def bset {α : Type} (b : Bak α) (i : Nat) (v : Option (List α)) : Bak α :=
+  if i < b.length then b.set i v else b ++ List.replicate (i - b.length) none ++ [v]
+
 /-- the files the handler can touch -/
 structure FS (α : Type) where
-  live : Option (List α)            -- `path`
-  bak  : Nat → Option (List α)      -- `path.<i>`
+  live : Option (List α) := none    -- `path`
+  bak  : Bak α := []                -- `path.<i>`
 
 /-- `muggle_log_file_rotate_handler_t` (`fp != NULL` ⇔ `isOpen`) -/
 structure RH where
@@ -33,24 +43,20 @@ def fsize {α : Type} (len : α → Nat) (c : List α) : Nat := (c.map len).sum
 /-- contents of a possibly missing file (a missing file has no lines) -/
 def cont {α : Type} (f : Option (List α)) : List α := f.getD []
 
-def bakSet {α : Type} (b : Nat → Option (List α)) (i : Nat) (v : Option (List α)) :
-    Nat → Option (List α) :=
-  fun j => if j = i then v else b j
-
 /-- `if (muggle_path_exists(p)) muggle_os_remove(p)` -/
-def osRemoveIfExists {α : Type} (b : Nat → Option (List α)) (i : Nat) : Nat → Option (List α) :=
-  if (b i).isSome then bakSet b i none else b
+def osRemoveIfExists {α : Type} (b : Bak α) (i : Nat) : Bak α :=
+  if (bget b i).isSome then bset b i none else b
 
 /-- `muggle_os_rename(path.i, path.j)`: fails (no change) when the source is missing,
 replaces the target otherwise -/
-def osRename {α : Type} (b : Nat → Option (List α)) (i j : Nat) : Nat → Option (List α) :=
-  match b i with
-  | some c => bakSet (bakSet b i none) j (some c)
+def osRename {α : Type} (b : Bak α) (i j : Nat) : Bak α :=
+  match bget b i with
+  | some c => bset (bset b i none) j (some c)
   | none => b
 
 /-- `for (int i = backup_count - 1; i > 0; i--) rename(path.i, path.(i+1))`;
 `renameLoop i` runs the iterations `i, i-1, …, 1`. -/
-def renameLoop {α : Type} : Nat → (Nat → Option (List α)) → (Nat → Option (List α))
+def renameLoop {α : Type} : Nat → Bak α → Bak α
   | 0, b => b
   | i + 1, b => renameLoop i (osRename b (i + 1) (i + 2))
 
@@ -62,7 +68,7 @@ def rotate {α : Type} (h : RH) (fs : FS α) : RH × FS α :=
   let b2 := renameLoop (h.backupCount - 1) b1
   -- rename(path, path.1)
   let b3 := match fs.live with
-    | some c => bakSet b2 1 (some c)
+    | some c => bset b2 1 (some c)
     | none => b2
   -- fopen(path, "ab+") creates the (now missing) live file; offset = 0
   ({ h with isOpen := true, offset := 0 }, { live := some [], bak := b3 })
@@ -117,7 +123,7 @@ def eff (backupCount : Nat) : Nat := max backupCount 1
 /-- `path.k ++ … ++ path.1` (oldest first) -/
 def backups {α : Type} (fs : FS α) : Nat → List α
   | 0 => []
-  | k + 1 => cont (fs.bak (k + 1)) ++ backups fs k
+  | k + 1 => cont (bget fs.bak (k + 1)) ++ backups fs k
 
 /-- backups oldest → newest followed by the live file -/
 def view {α : Type} (k : Nat) (fs : FS α) : List α := backups fs k ++ cont fs.live
@@ -153,7 +159,7 @@ def specRun {α : Type} (len : α → Nat) (s : Spec α) : List (Op α) → Spec
 
 /-- segments of a directory as found: `[path, path.1, …, path.k]` -/
 def segsOf {α : Type} (fs : FS α) (k : Nat) : List (List α) :=
-  cont fs.live :: (List.range k).map (fun i => cont (fs.bak (i + 1)))
+  cont fs.live :: (List.range k).map (fun i => cont (bget fs.bak (i + 1)))
 
 /-- the newest `k+1` segments, oldest first, concatenated -/
 def specView {α : Type} (k : Nat) (S : List (List α)) : List α :=
